@@ -196,11 +196,13 @@ fn res(k: &str) -> Value {
     json!({"k": k, "w": []})
 }
 
+/// Dense ranks of the weights as numbers (`-0.0` and `+0.0` are the same weight).
 fn dense_ranks(w: &[f64]) -> Vec<i64> {
+    let same = |a: f64, b: f64| a == b || a.to_bits() == b.to_bits();
     let mut s: Vec<f64> = w.to_vec();
     s.sort_by(|a, b| a.total_cmp(b));
-    s.dedup_by(|a, b| a.to_bits() == b.to_bits());
-    w.iter().map(|x| s.iter().position(|y| y.to_bits() == x.to_bits()).unwrap() as i64).collect()
+    s.dedup_by(|a, b| same(*a, *b));
+    w.iter().map(|x| s.iter().position(|y| same(*y, *x)).unwrap() as i64).collect()
 }
 
 fn component(hdr: &Hdr, op: &str, n: u32, k: u32) -> ExecResult<Box<dyn Component<TagProblem>>> {
@@ -460,6 +462,9 @@ fn universe(r: &mut ChaCha8Rng, tags: usize) -> Universe {
         }
     }
     vs.sort_by(|a, b| a.total_cmp(b));
+    // the value zero: +0.0 for everybody, -0.0 for everybody, or both bit patterns of the same
+    // number in one run (sign by tag, see `Values`): a tie for every comparing operator
+    let zero = *["0.0", "-0.0", "+-0.0", "-+0.0", "+-0.0", "-+0.0"].choose(r).unwrap();
     let with_inf = r.gen_bool(0.3);
     let inds = (1..=tags as u32)
         .map(|t| {
@@ -467,7 +472,7 @@ fn universe(r: &mut ChaCha8Rng, tags: usize) -> Universe {
             (t, rank)
         })
         .collect();
-    Universe { vals: vs.into_iter().map(fmt).collect(), inds }
+    Universe { vals: vs.into_iter().map(|v| if v == 0.0 { zero.to_string() } else { fmt(v) }).collect(), inds }
 }
 
 fn rand_pop(r: &mut ChaCha8Rng, u: &Universe, max: usize) -> Value {
@@ -638,7 +643,22 @@ fn random_repl(out: &Arc<Shared>, run_id: u64, seed: u64, len: u64, max: usize) 
             st.push(rand_pop(&mut r, &u, 4));
         }
         let par = rand_pop(&mut r, &u, max);
-        let off = if r.gen_bool(0.35) {
+        let off = if r.gen_bool(0.12) {
+            // index-wise ties: every offspring has the objective value (rank) of the parent at its
+            // index and, where the universe has one, another tag (zeros: possibly the other sign)
+            let tied: Vec<Value> = par
+                .as_array()
+                .unwrap()
+                .iter()
+                .map(|p| {
+                    let (pt, pk) = (p[0].as_u64().unwrap() as u32, p[1].as_i64().unwrap());
+                    let c: Vec<_> = u.inds.iter().filter(|x| x.1 == pk && x.0 != pt).collect();
+                    let (t, k) = c.choose(&mut r).map(|x| **x).unwrap_or((pt, pk));
+                    json!([t, k])
+                })
+                .collect();
+            Value::Array(tied)
+        } else if r.gen_bool(0.35) {
             // same size as the parents (index-wise comparison is usable)
             let n = par.as_array().unwrap().len();
             let mut p = rand_pop(&mut r, &u, max);
@@ -769,7 +789,11 @@ fn random_sa_template(out: &Arc<Shared>, run_id: u64, seed: u64, len: u64) {
     let mut r = rng(seed, run_id);
     let mut u = universe(&mut r, 40);
     let scale: f64 = *[1e-18, 1e-9, 1.0, 1.0, 1e9, 1e18].choose(&mut r).unwrap();
-    u.vals = u.vals.iter().map(|v| fmt(v.parse::<f64>().unwrap() * scale)).collect();
+    // (the tag-dependent zeros "+-0.0" / "-+0.0" of the value tables stay what they are: zero on every scale)
+    u.vals = u.vals.iter().map(|v| match v.parse::<f64>() {
+        Ok(x) => fmt(x * scale),
+        Err(_) => v.clone(),
+    }).collect();
     let mut h = hdr_json(&u, r.gen(), &mut r);
     let scaled = |x: &str| fmt(x.parse::<f64>().unwrap() * scale);
     h["t0"] = json!(scaled(*["2.0", "1e3", "1e-3", "50.0", "1e9"].choose(&mut r).unwrap()));
